@@ -143,6 +143,17 @@ def walk_exprs(e):
         yield from walk_exprs(e["i"])
     elif k == "call":
         yield from walk_exprs(e["a"])
+    elif k == "calln":
+        for x in e["as"]:
+            yield from walk_exprs(x)
+    elif k == "await":
+        yield from walk_exprs(e["a"])
+    elif k == "match":
+        yield from walk_exprs(e["x"])
+        for c in e["cases"]:
+            if c["hasg"]:
+                yield from walk_exprs(c["g"])
+            yield from walk_exprs(c["b"])
 
 
 def stmt_exprs(s):
